@@ -627,6 +627,11 @@ func (d *protoDom) call(st *sState, call *ssa.Call, name string, args []sVal) (b
 			x, y = pVal(X), pC(0)
 		} else if X := orOfAllBytes(d, st, y); X != nil && x.op == "c" && x.n.Sign() == 0 {
 			x, y = pVal(X), pC(0)
+		} else if t := wholeNonzeroWord(x); t != nil && y.op == "c" && y.n.Sign() == 0 {
+			// the OR of all limbs of an element (folded or not) is zero exactly when the element is
+			x, y = t, pC(0)
+		} else if t := wholeNonzeroWord(y); t != nil && x.op == "c" && x.n.Sign() == 0 {
+			x, y = t, pC(0)
 		}
 		if v, known := d.decideCmp(st, x, token.EQL, y); known {
 			set(sInt{big.NewInt(map[bool]int64{true: 1, false: 0}[v])})
@@ -1138,6 +1143,72 @@ func (d *protoDom) call(st *sState, call *ssa.Call, name string, args []sVal) (b
 		d.writeBytes(st, arr, b.lo, pBe(v, k), k)
 		set(sNil{})
 		return true, nil
+	case "sm2/internal/fiat.sm2Nonzero", "sm2/internal/fiat.sm2ScalarNonzero":
+		// *out = OR of the four limbs (the primitive's body is checked by C08 where the word is used as a verdict): a
+		// word that is zero exactly when the (canonical) element is
+		var t *pt
+		switch in := args[1].(type) {
+		case pObj:
+			if h := d.obj(st, in); h != nil && h.t != nil {
+				t = h.t
+			}
+		case sPtr:
+			if st.limbTerm != nil {
+				t = st.limbTerm[in.id]
+			}
+		}
+		out, ok := args[0].(sPtr)
+		if t == nil || !ok || out.idx < 0 {
+			return fail("Nonzero of an unknown element")
+		}
+		arr, ok := st.heap[out.id].(*hArray)
+		if !ok || out.idx >= len(arr.elems) {
+			return fail("Nonzero into an unknown destination")
+		}
+		arr.elems[out.idx] = pInt{pOp("nzw", t)}
+		set(sNil{})
+		return true, nil
+	case "sm2/internal/fiat.sm2Sub", "sm2/internal/fiat.sm2ScalarSub":
+		// limbs of (a - b) modulo the prime: a canonical residue
+		term := func(v sVal) *pt {
+			switch in := v.(type) {
+			case pObj:
+				if h := d.obj(st, in); h != nil {
+					return h.t
+				}
+			case sPtr:
+				if st.limbTerm != nil {
+					return st.limbTerm[in.id]
+				}
+			}
+			return nil
+		}
+		a, b := term(args[1]), term(args[2])
+		if a == nil || b == nil {
+			return fail("limb subtraction of unknown elements")
+		}
+		modop := "modP"
+		if strings.Contains(name, "Scalar") {
+			modop = "mod"
+		}
+		res := pOp(modop, pAdd(a, pNeg(b)))
+		switch out := args[0].(type) {
+		case pObj:
+			h := d.obj(st, out)
+			if h == nil {
+				return fail("limb subtraction into an unknown element")
+			}
+			d.setObj(st, out, &hProto{kind: h.kind, t: res, set: true})
+		case sPtr:
+			if st.limbTerm == nil {
+				st.limbTerm = map[int]*pt{}
+			}
+			st.limbTerm[out.id] = res
+		default:
+			return fail("limb subtraction into an unknown destination")
+		}
+		set(sNil{})
+		return true, nil
 	case "sm2/internal/fiat.sm2FromMontgomery", "sm2/internal/fiat.sm2ScalarFromMontgomery":
 		// out = the limbs of the element's value: limb j is the value of bytes [24-8j, 32-8j) of its 32-byte encoding
 		var t *pt
@@ -1326,4 +1397,60 @@ func orOfAllBytes(d *protoDom, st *sState, t *pt) *pt {
 		}
 	}
 	return X
+}
+
+// wholeNonzeroWord: x is the word nzw(t) handed out by the Nonzero primitive, or the OR of pieces of it that together cover
+// all 64 bits (uint32(w) | uint32(w>>32), ...); returns t
+func wholeNonzeroWord(x *pt) *pt {
+	var base *pt
+	var cover uint64
+	var walk func(t *pt, shift uint, width uint) bool
+	walk = func(t *pt, shift uint, width uint) bool {
+		switch t.op {
+		case "nzw":
+			if base != nil && base.String() != t.String() {
+				return false
+			}
+			base = t
+			if shift >= 64 {
+				return true
+			}
+			w := width
+			if w > 64-shift {
+				w = 64 - shift
+			}
+			var m uint64
+			if w >= 64 {
+				m = ^uint64(0)
+			} else {
+				m = (uint64(1)<<w - 1)
+			}
+			cover |= m << shift
+			return true
+		case "trunc":
+			w := uint(t.k)
+			if w > width {
+				w = width
+			}
+			return walk(t.args[0], shift, w)
+		case "shr":
+			if t.n == nil || !t.n.IsInt64() || t.n.Int64() < 0 || t.n.Int64() > 63 {
+				return false
+			}
+			k := uint(t.n.Int64())
+			return walk(t.args[0], shift+k, width)
+		case "or":
+			for _, a := range t.args {
+				if !walk(a, shift, width) {
+					return false
+				}
+			}
+			return true
+		}
+		return false
+	}
+	if !walk(x, 0, 64) || base == nil || cover != ^uint64(0) {
+		return nil
+	}
+	return base.args[0]
 }
